@@ -131,6 +131,8 @@ def render(P, rng, opts=None):
             text += rng.choice(["; ", "; ", ";", " ; ", "; ; ", ";; "]) + extra
         if rng.random() < o["p_trailing_semi"]:
             text += rng.choice([";", " ;"])
+        if len(group) > 1 and not P.stmts[group[0]].label and rng.random() < 0.1:
+            text = rng.choice(["; ", ";", "; ; "]) + text          # a line may start with ';'
         start_line = len(lines) + 1
         # continuation
         pieces = [text]
